@@ -197,6 +197,8 @@ def run(ctx):
     prog = common.view(ctx, "default")
     lib = prog.lib
     roles = common.role_fields(ctx, lib, want=common.FMT_ROLES)
+    ctx.rule("DEF-1", "RegExpConfig::new(): every boolean option off, both thresholds 1")
+    common.def1(ctx, lib)
     pf = prc1(ctx, lib)
     if pf is not None:
         prc2(ctx, lib, pf)
